@@ -40,6 +40,7 @@ pub fn emit_pool_initialized(e: PoolInitialized) { unimplemented!() }
 //@ fn instructions/v2/initialize_pool.rs handler -> r as=initialize_pool_v2_handler canary
     requires constraints_InitializePoolV2(old(ctx.accounts), tick_spacing), old(ctx.accounts).fee_tier.data.tick_spacing > 0, // fee tiers have a non-zero spacing (FeeTier::initialize)
     ensures
+        r is Ok ==> old(ctx.accounts).token_badge_a.skey() == crate::anchor_shim::pda_of(seq![crate::anchor_shim::Seed::Lit(0x746f6b656e5f6261646765int), crate::anchor_shim::Seed::Key(old(ctx.accounts).whirlpools_config.skey()), crate::anchor_shim::Seed::Key(old(ctx.accounts).token_mint_a.skey())]) && old(ctx.accounts).token_badge_b.skey() == crate::anchor_shim::pda_of(seq![crate::anchor_shim::Seed::Lit(0x746f6b656e5f6261646765int), crate::anchor_shim::Seed::Key(old(ctx.accounts).whirlpools_config.skey()), crate::anchor_shim::Seed::Key(old(ctx.accounts).token_mint_b.skey())]), // the badge accounts examined are the ones derived from ("token_badge", this config, that mint)
         r is Ok ==> old(ctx.accounts).fee_tier.data.whirlpools_config == old(ctx.accounts).whirlpools_config.k && old(ctx.accounts).fee_tier.data.tick_spacing == tick_spacing, // the pool takes its rate from a fee tier of ITS config for ITS spacing
         r is Ok ==> mint_supported(old(ctx.accounts).token_mint_a.data, badge_ok(old(ctx.accounts).token_badge_a, old(ctx.accounts).whirlpools_config.k, old(ctx.accounts).token_mint_a.data.k)),
         r is Ok ==> mint_supported(old(ctx.accounts).token_mint_b.data, badge_ok(old(ctx.accounts).token_badge_b, old(ctx.accounts).whirlpools_config.k, old(ctx.accounts).token_mint_b.data.k)),
